@@ -441,7 +441,7 @@ Record astate := mkast {
   acs : list (nat * acall);          (* association list call -> bookkeeping *)
   started : N; returned : N;
   recvd : list N;                    (* ids the peer has read *)
-  sends : list (N * N * bool);       (* (id, payload, was a call with this id inside doInvoke when it was sent?) *)
+  sends : list (N * N);              (* (id, payload) of every packet the peer sent so far *)
   errored : list N }.                (* ids of calls that returned an error *)
 
 Definition aget (a : astate) (c : nat) : acall :=
@@ -450,8 +450,6 @@ Definition aset (a : astate) (c : nat) (k : acall) : list (nat * acall) :=
   (c, k) :: filter (fun x => negb (Nat.eqb (fst x) c)) (acs a).
 Definition id_used (a : astate) (id : N) : bool :=
   existsb (fun x => match ph (snd x) with PhNone | PhStarted => false | _ => aid (snd x) =? id end) (acs a).
-Definition id_live (a : astate) (id : N) : bool :=
-  existsb (fun x => match ph (snd x) with PhPre => aid (snd x) =? id | _ => false end) (acs a).
 Definition memN (x : N) (l : list N) : bool := existsb (N.eqb x) l.
 
 Definition astep (a : astate) (e : event) : option astate :=
@@ -476,7 +474,7 @@ Definition astep (a : astate) (e : event) : option astate :=
           let ub := started a - retd_at_post k - 1 in
           let okc := (q <=? ub) && (n <=? ub) && (p <=? ub) in
           let oko := match o with
-                     | OReply => existsb (fun x => let '(i, py, live) := x in (i =? aid k) && (py =? pay) && live) (sends a)
+                     | OReply => existsb (fun x => let '(i, py) := x in (i =? aid k) && (py =? pay)) (sends a)
                      | OTimeout => true
                      | OError => negb (memN (aid k) (recvd a))
                      | OSent => true
@@ -494,7 +492,7 @@ Definition astep (a : astate) (e : event) : option astate :=
       then Some (mkast (acs a) (started a) (returned a) (id :: recvd a) (sends a) (errored a))
       else None
   | EPeerSend id pay =>
-      Some (mkast (acs a) (started a) (returned a) (recvd a) ((id, pay, id_live a id) :: sends a) (errored a))
+      Some (mkast (acs a) (started a) (returned a) (recvd a) ((id, pay) :: sends a) (errored a))
   end.
 
 Fixpoint arun (a : astate) (es : list event) : option astate :=
